@@ -675,8 +675,8 @@ int main(int argc, char **argv) {
         std::printf("CASE %s\n", cs.name.c_str());
         std::fflush(stdout);
         {
-            // every case starts with a fresh deque (cursor at the beginning of its first node), as a new thread would
-            am::quiet q;
+            // every case starts with a fresh deque (cursor at the beginning of its first node), as a new thread would.
+            // Outside every measured window, but counted blocks: freeing the warm-up node later IS an observable free.
             std::deque<std::coroutine_handle<>>().swap(coro_queue::queue_impl::instance._queue);
         }
         {
